@@ -7,8 +7,9 @@ import GrassProofs.Lemmas.CssTreeBuild
 
   `flattenSpec`  : flatten by hand (Grass/CssTree.lean, part (a))
   `compile af`   : grass's algorithm — `treeBuild af`, `finish`, invisibility, blocks (part (b));
-                   `AsFound.code` is the code as it stands, `AsFound.specified` has the three
-                   deviations C04-D1/D2/D3 repaired.
+                   `AsFound.code` is the code as it stands now (C04-D1 and C04-D2 repaired in /repo,
+                   C04-D3 still present), `AsFound.pinned` the tree as found (all three deviations),
+                   `AsFound.specified` has all three repaired.
   P̂ = `specHolds src obs` : the observed block list is `flattenSpec src`.
 
   Full statement (NOT proved in general — the @at-root and bubbling fragments are covered by the
@@ -166,23 +167,23 @@ def witD1 : Stmts :=
   .cons (.media [[0]] (.cons (.supports "(s0: v)" (.cons (.rule [[.cmp ⟨none, ["a"]⟩]]
     (.cons (.atroot (some ⟨false, ["supports"]⟩) (.cons (.decl (.mk "p0" (some "v1") .nil)) .nil)) .nil)) .nil)) .nil)) .nil
 
-/-- C04-D1: with the outermost copy as the new parent (visitor.rs:1190) the declaration loses its
-    style rule; taking the innermost copy repairs it. -/
+/-- C04-D1 (fixed in /repo, c501619): with the outermost copy as the new parent the declaration
+    lost its style rule; taking the innermost copy repairs it — and the code as it stands does. -/
 theorem C04_asFound_D1_outerCopyParent :
-    specHolds witD1 (compile AsFound.code witD1) = false ∧
-    specHolds witD1 (compile { AsFound.code with outerCopyParent := false } witD1) = true ∧
-    specHolds witD1 (compile AsFound.specified witD1) = true := by decide
+    specHolds witD1 (compile AsFound.pinned witD1) = false ∧
+    specHolds witD1 (compile { AsFound.pinned with outerCopyParent := false } witD1) = true ∧
+    specHolds witD1 (compile AsFound.code witD1) = true := by decide
 
 /-- `@foo { @at-root (without: all) { p0: v1 } }` -/
 def witD2 : Stmts :=
   .cons (.unknown "foo" "" (.cons (.atroot (some ⟨false, ["all"]⟩) (.cons (.decl (.mk "p0" (some "v1") .nil)) .nil)) .nil)) .nil
 
-/-- C04-D2: IN_UNKNOWN_AT_RULE survives the @at-root (visitor.rs:1244), so the declaration is
-    accepted although nothing encloses it; the property (and dart-sass) ask for an error. -/
+/-- C04-D2 (fixed in /repo, ea0c00a): IN_UNKNOWN_AT_RULE survived the @at-root, so the declaration
+    was accepted although nothing encloses it; the property (and dart-sass) ask for an error. -/
 theorem C04_asFound_D2_keepInUnknown :
-    specHolds witD2 (compile AsFound.code witD2) = false ∧
-    specHolds witD2 (compile { AsFound.code with keepInUnknown := false } witD2) = true ∧
-    specHolds witD2 (compile AsFound.specified witD2) = true := by decide
+    specHolds witD2 (compile AsFound.pinned witD2) = false ∧
+    specHolds witD2 (compile { AsFound.pinned with keepInUnknown := false } witD2) = true ∧
+    specHolds witD2 (compile AsFound.code witD2) = true := by decide
 
 /-- `@supports s { @supports t { a { @at-root (without: all) { & { p: 1 } } & { p: 2 } } } }` -/
 def witD3 : Stmts :=
